@@ -18,6 +18,9 @@ N = {'quick': 340, 'thorough': 17000}
 CLASSES = ['maps', 'maps', 'maps_sloped', 'maps_endpoints', 'maps_many', 'detect_rot', 'detect_rot', 'maps_short']
 REQUIRED = ['parse_calls', 'ridges_checked', 'sloped_ridges', 'endpoint_ridges', 'short_ridges', 'detect_pairs', 'rotated_lines_compared', 'rot1', 'rot2', 'rot3', 'regions_compared']
 SHARDS = {'quick': 8, 'thorough': 16}
+# 'within one pixel': the engine's un-rotation uses W - y where the exact inverse is W - 1 - y (exactly 1 px apart); outlines are float32
+# arrays, so the observed difference can exceed 1 by float32 round-off (1.0000038 seen at x = 290 in the thorough tier)
+ROT_TOL = 1.0 + 1e-3
 
 
 def setup(ctx):
@@ -196,12 +199,12 @@ def check_rot(case, mon, ctx):
         j = int(np.argmin(d))
         mon.count('rotated_lines_compared')
         mon.observe_max('rotation_baseline_error_px', d[j])
-        if d[j] > 1.0 + 1e-6 or j in used:
+        if d[j] > ROT_TOL or j in used:
             mon.violation('rotated-analysis-returns-original-coordinates', dict(w, what='baseline', got=b, expected=exp_b[j], error=float(d[j])))
             continue
         used.add(j)
         te = exp_t[j]
-        if te.shape != np.asarray(t).shape or np.abs(np.asarray(t, dtype=np.float64) - te).max() > 1.0 + 1e-6:
+        if te.shape != np.asarray(t).shape or np.abs(np.asarray(t, dtype=np.float64) - te).max() > ROT_TOL:
             mon.violation('rotated-analysis-returns-original-coordinates', dict(w, what='outline', got=t, expected=te))
         # and the line really lies on a stroke of the ORIGINAL image
         best = np.inf
@@ -221,11 +224,11 @@ def check_rot(case, mon, ctx):
         mon.count('regions_compared')
         ok = False
         for e in exp_p:
-            if e.shape == p.shape and np.abs(p - e).max() <= 1.0 + 1e-6:
+            if e.shape == p.shape and np.abs(p - e).max() <= ROT_TOL:
                 ok = True
         if not ok:
             # region polygons may start at a different vertex: compare as shapes (boundaries within 1 px)
             from vf.genlib import same_polygon_shape
-            ok = any(same_polygon_shape(p, e, 1.0 + 1e-6) for e in exp_p if len(e) >= 3)
+            ok = any(same_polygon_shape(p, e, ROT_TOL) for e in exp_p if len(e) >= 3)
         if not ok:
             mon.violation('rotated-analysis-returns-original-coordinates', dict(w, what='region', got=p, expected=[e.tolist() for e in exp_p][:3]))
